@@ -105,6 +105,18 @@ def run(ctx):
                 ctx.fail(f"{name}|{s}", {"entry": name, "string": s}, "Tree or SyntaxError", repr(r[1])[:80], "oracle: result is not a tree")
             if r[0] == "exn" and r[1] != "SyntaxErr":
                 ctx.fail(f"{name}|{s}", {"entry": name, "string": s}, "Tree or SyntaxError", r[1], "oracle: only SyntaxError may escape")
+        # an AHB expression whose indicator structure is fine but whose condition part is malformed must be rejected
+        pa = classify(lambda: parse_ahb(s))
+        if pa[0] == "ok" and isinstance(pa[1], Tree):
+            texts = [str(ch.children[1]) for ch in pa[1].children if len(ch.children) == 2]
+            bad_part = next((t for t in texts if classify(lambda: parse_cond(t))[0] == "exn"), None)
+            if bad_part is not None and classify(lambda: parse_cond(s))[0] == "exn":
+                for rpk in (False, True):
+                    r0 = classify(lambda: asyncio.run(resolve(s, resolve_packages=rpk)))
+                    if not (r0[0] == "exn" and r0[1] == "SyntaxErr"):
+                        ctx.fail(f"part-malformed|{s}", {"entry": "parse_expression_including_unresolved_subexpressions", "string": s, "malformed_part": bad_part},
+                                 "SyntaxError (a condition part is not a condition expression)", "accepted" if r0[0] == "ok" else r0[1], "oracle: malformed condition part inside an AHB expression is rejected")
+                        break
         rr = classify(lambda: asyncio.run(resolve(s)))
         rv = classify(lambda: asyncio.run(is_valid_expression(s, lambda cer: None)))
         if rr[0] == "exn" and rr[1] == "SyntaxErr":
